@@ -64,6 +64,9 @@ MUTS = {
         for (;;) {
             if (chain.compare_exchange_weak(_next, this, publish_order, refuse_order)) break;
             if (_next == &ready_state) {"""), sub('coro_storage.h','            me->_busy.store(false, std::memory_order_release);','            constexpr auto hand_back = std::memory_order_release;\n            me->_busy.store(false, hand_back);')),
+ 'M25_claim_load_then_store': lambda: sub('future.h','        return _owner.exchange(nullptr, std::memory_order_relaxed);','        auto m = _owner.load(std::memory_order_relaxed);\n        if (m != nullptr) _owner.store(nullptr, std::memory_order_relaxed);\n        return m;'),
+ 'M26_awaitable_bool_reads_state_first': lambda: sub('future.h','        bool await_ready() noexcept {return this->_owner.ready();}','        bool await_ready() noexcept {return this->_owner._state != State::not_value || this->_owner.ready();}'),
+ 'M27_publisher_wakeup_buffer_in_place': lambda: sub('publisher.h','             for (awaiter *x: wk) x->resume();','             for (awaiter *x: _wakeup_buffer) x->resume();'),
  # must stay silent
  'S1_ready_seq_cst': lambda: sub('future.h','return _awaiter.load(std::memory_order_acquire) == &awaiter::disabled;','return _awaiter.load(std::memory_order_seq_cst) == &awaiter::disabled;'),
  'S2_rename_local': lambda: (sub('mutex.h','awaiter *req = _requests.exchange(doorman(), std::memory_order_acquire);','awaiter *taken = _requests.exchange(doorman(), std::memory_order_acquire);\n        awaiter *req = taken;'),),
@@ -80,6 +83,7 @@ MUTS = {
         return _queue.empty();""","""        std::unique_lock guard(_mx);
         return _queue.empty();"""),
  'S8_unlock_reads_queue_again_as_owner': lambda: sub('mutex.h','        awaiter *first = _queue;\n','        awaiter *first = _queue;\n        if (_queue == nullptr) return;\n'),
+ 'S10_awaitable_bool_state_after_ready': lambda: sub('future.h','        bool await_ready() noexcept {return this->_owner.ready();}','        bool await_ready() noexcept {if (!this->_owner.ready()) return false; return this->_owner._state != State::not_value || true;}'),
  'S7_cas_fail_acquire_no_fence': lambda: (sub('awaiter.h','while (!chain.compare_exchange_weak(_next, this, std::memory_order_release)) {','while (!chain.compare_exchange_weak(_next, this, std::memory_order_release, std::memory_order_acquire)) {'), sub('awaiter.h','                std::atomic_thread_fence(std::memory_order_acquire);\n','')),
 }
 def run(name):
